@@ -364,7 +364,7 @@ pub fn next_op(e: &Engine, rng: &mut Rng) -> Op {
                     12..=15 => Rcpt::Native(rng.below(8) as u8),
                     16 => Rcpt::NativeUpper(rng.below(8) as u8),
                     17 => Rcpt::NativeStaker,
-                    _ => Rcpt::Garbage(rng.below(6) as u8),
+                    _ => Rcpt::Garbage(rng.below(8) as u8),
                 }
             };
             let flag = match rng.below(4) {
@@ -462,7 +462,7 @@ pub fn next_op(e: &Engine, rng: &mut Rng) -> Op {
                 8 => Some(100 + rng.below(8) as u8),
                 0..=3 => None,
                 4 => Some(250),
-                5 => Some(251),
+                5 => Some(if rng.chance(1, 2) { 251 } else { 253 + rng.below(2) as u8 }),
                 6 => Some(252),
                 _ => Some(rng.below(8) as u8),
             },
